@@ -177,6 +177,9 @@ pvf_read_header (SF_PRIVATE *psf)
 	psf->dataoffset = psf->header.indx ;
 	psf_log_printf (psf, " Data Offset : %D\n", psf->dataoffset) ;
 
+	if (psf->is_pipe == 0 && psf_ftell (psf) != psf->dataoffset)
+		psf_fseek (psf, psf->dataoffset, SEEK_SET) ;
+
 	psf->endian = SF_ENDIAN_BIG ;
 
 	psf->datalength = psf->filelength - psf->dataoffset ;
